@@ -2022,11 +2022,17 @@ class BaseInterpreter(Generic[TContext, TEvent]):
                 child.type == "history" for child in state.states.values()
             ):
                 continue
-            remembered = [
-                node
-                for node in self._active_state_nodes
-                if node is not state and self._is_descendant(node, state)
-            ]
+            # 🎲 The configuration is a set of objects hashed by address, so
+            #    its iteration order differs between runs; the remembered list
+            #    fixes the order in which restored states are re-entered.
+            remembered = sorted(
+                (
+                    node
+                    for node in self._active_state_nodes
+                    if node is not state and self._is_descendant(node, state)
+                ),
+                key=lambda n: (n.depth, n.id),
+            )
             if remembered:
                 self._history[state.id] = remembered
                 logger.debug(
